@@ -4,12 +4,12 @@
 package main
 
 import (
-	"runtime/debug"
 	"encoding/json"
 	"flag"
 	"fmt"
 	"os"
 	"path/filepath"
+	"runtime/debug"
 	"sort"
 	"strings"
 
